@@ -13,6 +13,8 @@ pub const ABCX: [char; 4] = ['a', 'b', 'c', 'x'];
 pub const BETA1: [char; 4] = ['\n', '中', '\u{301}', '\t'];
 /// β2: 2-byte, 4-byte wide, zero-width 3-byte, control
 pub const BETA2: [char; 4] = ['§', '😀', '\u{200B}', '\u{7}'];
+/// Line ends: `"\r\n"` sequences, a lone `'\r'`, and a zero-width joiner between ordinary letters
+pub const BETA3: [char; 4] = ['\r', '\n', '\u{200C}', 'z'];
 
 pub fn bind(r: &Re, beta: &[char; 4]) -> Re {
     let b = *beta;
@@ -352,6 +354,32 @@ pub fn ctx_family(full: bool) -> Vec<Spec> {
             out.push(Spec::single(rules, "ctx_enum"));
         }
     }
+    // contexts that end in a parenthesised / let-bound concatenation with nullable parts inside, and
+    // contexts in which `$` is an alternative followed by nullable parts or sits under a repetition
+    let nested = [
+        cat(ch('b'), cat(star(ch('c')), ch('a'))),
+        cat(ch('b'), cat(opt(ch('c')), ch('b'))),
+        cat(ch('b'), cat(ch('c'), star(ch('a')))),
+        cat(set(&[('a', 'b')]), cat(cat(star(ch('c')), ch('a')), opt(ch('b')))),
+        cat(alt(ch('b'), Re::Eoi), star(ch('c'))),
+        plus(alt(ch('b'), Re::Eoi)),
+        cat(alt(Re::Eoi, ch('c')), opt(ch('b'))),
+    ];
+    for c in &nested {
+        out.push(Spec::single(vec![Rule { re: ch('a'), ctx: Some(c.clone()), kind: Kind::Act(D_RETURN) }, ret(ch('a')), ret(set(&[('b', 'c')]))], "ctx_nested"));
+        out.push(Spec::single(vec![ret(st("ab")), Rule { re: plus(ch('a')), ctx: Some(c.clone()), kind: Kind::Act(D_RETURN) }, ret(set(&[('a', 'c')]))], "ctx_nested"));
+        let mut s = Spec::single(vec![Rule { re: ch('a'), ctx: Some(cat(ch('b'), Re::Var("t".into()))), kind: Kind::Act(D_RETURN) }, ret(ch('a')), ret(set(&[('b', 'c')]))], "ctx_nested");
+        if !c.has_eoi() {
+            s.lets = vec![("t".into(), c.clone())];
+            out.push(s);
+        }
+    }
+    // a rule ending in `_` under a context, declared before a rule ending in a character / range at
+    // the same position (both ends are leaves)
+    for c in [ch('c'), set(&[('b', 'c')]), Re::Eoi] {
+        out.push(Spec::single(vec![Rule { re: cat(ch('b'), Re::Any), ctx: Some(c.clone()), kind: Kind::Act(D_RETURN) }, ret(st("ba")), ret(cat(ch('b'), set(&[('b', 'c')]))), ret(set(&[('a', 'c')]))], "ctx_any"));
+        out.push(Spec::single(vec![ret(st("ba")), Rule { re: cat(ch('b'), Re::Any), ctx: Some(c.clone()), kind: Kind::Act(D_RETURN) }, ret(set(&[('a', 'c')]))], "ctx_any"));
+    }
     // a longer rule that extends past a context-only accept through a state that can fail
     for c in [ch('b'), set(&[('b', 'c')]), Re::Any, st("bc"), alt(ch('b'), Re::Eoi)] {
         out.push(Spec::single(vec![Rule { re: ch('a'), ctx: Some(c.clone()), kind: Kind::Act(D_RETURN) }, ret(st("abc")), ret(ch('b')), ret(ch('c'))], "ctx_past"));
@@ -595,7 +623,33 @@ pub fn fold_family() -> Vec<Spec> {
             }
         }
     }
+    // one state with a range, a character inside it, a character outside it and `_`, each
+    // continuing differently (the subset construction visits the characters in hash order)
+    for (i, inside) in ['a', 'b', 'c'].into_iter().enumerate() {
+        for (j, outside) in ['m', 'x', 'y', '1', '2'].into_iter().enumerate() {
+            let mut rules = vec![ret(cat(ch(inside), ch('1'))), ret(cat(set(&[('a', 'c')]), ch('2'))), ret(cat(ch(outside), ch('1'))), ret(cat(Re::Any, ch('y')))];
+            if (i + j) % 2 == 1 {
+                rules.reverse();
+            }
+            out.push(Spec::single(rules, "any_merge"));
+        }
+    }
     out
+}
+
+/// Ranges next to and across the surrogate gap, above it, and up to `char::MAX`.  Alphabet: `HIGH_ALPHABET`.
+pub const HIGH_ALPHABET: [char; 8] = ['a', '\u{D7FF}', '\u{E000}', '\u{F900}', '\u{FF20}', '\u{FFFF}', '\u{10000}', '\u{10FFFF}'];
+pub fn high_family() -> Vec<Spec> {
+    let r = |a: char, b: char| set(&[(a, b)]);
+    vec![
+        Spec::single(vec![ret(plus(r('a', '\u{FFFF}'))), ret(Re::Any)], "high"),
+        Spec::single(vec![ret(plus(r('\u{FF01}', '\u{FF5E}'))), ret(Re::Any)], "high"),
+        Spec::single(vec![ret(plus(r('\u{80}', '\u{10FFFF}'))), ret(ch('a'))], "high"),
+        Spec::single(vec![ret(cat(r('\u{D7FF}', '\u{E000}'), ch('a'))), ret(Re::Any)], "high"),
+        Spec::single(vec![ret(plus(diff(Re::Any, r('\u{E000}', '\u{FFFF}')))), ret(Re::Any)], "high"),
+        Spec::single(vec![ret(plus(r('\u{E001}', '\u{FFFF}'))), ret(plus(r('\u{10000}', '\u{10FFFF}'))), ret(r('\u{0}', '\u{E000}'))], "high"),
+        Spec::single(vec![ret(cat(r('\u{F000}', '\u{10000}'), r('\u{FF00}', '\u{10FFFE}'))), ret(Re::Any)], "high"),
+    ]
 }
 
 /// Delimited lexemes: a `_` (or `_ # c`) loop between delimiters — the `_` transition leads to a
@@ -714,7 +768,9 @@ pub fn pool_groups(prop: &'static str, proj: Proj, q: bool, max_dev: usize) -> V
     let mut p4 = plan(prop, proj, 3, 0);
     p4.alphabet = FOLD_ALPHABET.to_vec();
     let fold: Vec<Spec> = fold_family().into_iter().step_by(if q { 3 } else { 1 }).collect();
-    vec![Group { plan: p1, specs: shape_pool(q) }, Group { plan: p2, specs: tables }, Group { plan: p3, specs: bound }, Group { plan: p4, specs: fold }]
+    let mut p5 = plan(prop, proj, 3, 0);
+    p5.alphabet = HIGH_ALPHABET.to_vec();
+    vec![Group { plan: p1, specs: shape_pool(q) }, Group { plan: p2, specs: tables }, Group { plan: p3, specs: bound }, Group { plan: p4, specs: fold }, Group { plan: p5, specs: high_family() }]
 }
 
 fn with<F: FnOnce(&mut Plan)>(mut p: Plan, f: F) -> Plan {
@@ -738,6 +794,11 @@ pub fn groups(prop: &str, tier: &str) -> Vec<Group> {
         "C06" => Some(("C06", Proj::Locs, 0)),
         "C07" => {
             g.push(Group { plan: plan("C07", Proj::Errors, if q { 4 } else { 5 }, 1), specs: groups_core("C03", tier).remove(0).specs.into_iter().step_by(if q { 3 } else { 1 }).collect() });
+            // contexts and classes written with (rule-set-local) variables: a wrong binding shows as a spurious / missing InvalidToken
+            g.push(Group {
+                plan: plan("C07", Proj::Errors, if q { 4 } else { 5 }, 0),
+                specs: groups_core("C16", tier).remove(0).specs.into_iter().filter(|s| matches!(s.family, "let_scope_ctx" | "let_chain" | "let_scope" | "let_builtin_name")).collect(),
+            });
             Some(("C07", Proj::Errors, 0))
         }
         "C08" => Some(("C08", Proj::Recovery, 0)),
@@ -888,7 +949,10 @@ fn groups_core(prop: &str, tier: &str) -> Vec<Group> {
             p.pieces = true;
             let mut specs = eoi_family();
             specs.extend(selected("eoi2_a6", if q { 60 } else { usize::MAX }));
-            vec![Group { plan: p, specs }]
+            let mut pc = plan("C05", Proj::Full, if q { 4 } else { 5 }, 1);
+            pc.alphabet = vec!['a', 'b', 'c'];
+            let in_ctx: Vec<Spec> = ctx_family(false).into_iter().filter(|s| s.family == "ctx_nested" && s.sets[0].rules.iter().any(|r| r.ctx.as_ref().map_or(false, |c| c.has_eoi()))).collect();
+            vec![Group { plan: p, specs }, Group { plan: pc, specs: in_ctx }]
         }
         "C06" => {
             let mk = |beta: &[char; 4], n: usize| Group {
@@ -898,7 +962,7 @@ fn groups_core(prop: &str, tier: &str) -> Vec<Group> {
                 }),
                 specs: wide_family(beta, n),
             };
-            let mut g = vec![mk(&BETA1, if q { 10 } else { 14 }), mk(&BETA2, if q { 7 } else { 14 })];
+            let mut g = vec![mk(&BETA1, if q { 10 } else { 14 }), mk(&BETA2, if q { 7 } else { 14 }), mk(&BETA3, if q { 7 } else { 14 })];
             // ASCII control: same shapes under the identity binding, with accumulation over switches
             g.push(Group { plan: plan("C06", Proj::Locs, 5, 1), specs: if q { sets_family(6, &[3], false) } else { sets_family(8, &[2, 3, 5], true) } });
             g
@@ -1076,6 +1140,38 @@ fn groups_core(prop: &str, tier: &str) -> Vec<Group> {
             specs.push(simple(diff(diff(builtin("alphanumeric"), builtin("alphabetic")), builtin("ascii_digit"))));
             specs.push(simple(cat(diff(diff(builtin("alphabetic"), builtin("lowercase")), builtin("uppercase")), ch('x'))));
             specs.push(simple(cat(diff(diff(builtin("ascii_alphanumeric"), builtin("ascii_digit")), builtin("ascii_uppercase")), ch('x'))));
+            // two search tables in one lexer, one a prefix of / contained in the other (each behind its own first character)
+            let astral = set(&[('\u{10000}', '\u{10FFFF}')]);
+            let pre = |p: char, c: Re| rule(cat(ch(p), c), Kind::Simple);
+            for n in ["alphabetic", "lowercase", "numeric", "XID_Continue"] {
+                specs.push(Spec::single(vec![pre('1', builtin(n)), pre('2', diff(builtin(n), astral.clone()))], "builtin_tables"));
+                specs.push(Spec::single(vec![pre('1', diff(builtin(n), astral.clone())), pre('2', builtin(n)), pre('3', diff(builtin(n), set(&[('\u{0}', '\u{FFFF}')])))], "builtin_tables"));
+            }
+            specs.push(Spec::single(vec![pre('1', builtin("alphanumeric")), pre('2', builtin("alphabetic")), pre('3', builtin("XID_Start")), pre('4', builtin("lowercase"))], "builtin_tables"));
+            // a class of many ranges beside string rules that start inside its first / a middle / its last range
+            for n in crate::builtins::builtin_names() {
+                let s = crate::builtins::builtin_set(n).unwrap();
+                if s.len() <= 8 {
+                    continue;
+                }
+                let mut decoys: Vec<u32> = vec![];
+                for (lo, hi) in [s[0], s[s.len() / 2], s[s.len() - 2], s[s.len() - 1]] {
+                    if hi > lo {
+                        decoys.push(hi);
+                    }
+                    if hi > lo + 1 {
+                        decoys.push(lo + 1);
+                    }
+                }
+                decoys.sort();
+                decoys.dedup();
+                let mut rules: Vec<Rule> = decoys.iter().filter_map(|c| char::from_u32(*c)).map(|c| rule(st(&format!("{c}{c}")), Kind::Simple)).collect();
+                if rules.is_empty() {
+                    continue;
+                }
+                rules.push(rule(plus(builtin(n)), Kind::Simple));
+                specs.push(Spec::single(rules, "builtin_decoys"));
+            }
             let mut p = plan("C13", Proj::ClassSweep, 0, 0);
             p.sweep_all = true;
             p.check_probe_neutral = false;
@@ -1144,6 +1240,29 @@ fn groups_core(prop: &str, tier: &str) -> Vec<Group> {
                 let mut s2 = Spec::single(vec![ret(alt(alt(var("p"), var("q")), var("r")))], "let_class");
                 s2.lets = lets(&[("p", cat(ch('b'), ch('x'))), ("q", cat(set(&[('a', 'c')]), ch('a'))), ("r", cat(Re::Any, ch('c')))]);
                 specs.push(s2);
+            }
+            // variables named like built-in classes (`$lowercase` is the variable, `$$lowercase` the class),
+            // at top level and local to a rule set
+            {
+                let mut s = Spec::single(vec![ret(plus(var("lowercase"))), ret(set(&[('a', 'c')]))], "let_builtin_name");
+                s.lets = lets(&[("lowercase", set(&[('a', 'a'), ('x', 'x')]))]);
+                specs.push(s);
+                let mut s = Spec::single(vec![ret(plus(diff(builtin("ascii_lowercase"), var("ascii_lowercase")))), ret(plus(var("ascii_lowercase")))], "let_builtin_name");
+                s.lets = lets(&[("ascii_lowercase", set(&[('b', 'c')]))]);
+                specs.push(s);
+                specs.push(Spec {
+                    lets: lets(&[("alphabetic", ch('c'))]),
+                    sets: vec![
+                        RuleSet { lets: lets(&[("numeric", st("ab"))]), rules: vec![rule(var("numeric"), Kind::Act(d_switch_return(1))), ret(plus(var("alphabetic"))), ret(set(&[('a', 'b')]))] },
+                        RuleSet { lets: lets(&[("numeric", set(&[('a', 'b')]))]), rules: vec![rule(plus(var("numeric")), Kind::Act(d_switch_return(0))), ret(var("alphabetic"))] },
+                    ],
+                    named: true,
+                    decl_order: vec![],
+                    family: "let_builtin_name",
+                    set_names: vec![],
+                });
+                // strings of one character (also outside ASCII) are strings
+                specs.push(Spec::single(vec![ret(cat(st("a"), plus(st("b")))), ret(st("c")), ret(ch('a'))], "one_char_string"));
             }
             // a let that refers to an earlier let; variables in right contexts
             let mut s = Spec::single(vec![ret(cat(var("w"), ch('c'))), Rule { re: var("d"), ctx: Some(var("w")), kind: Kind::Act(D_RETURN) }, ret(set(&[('a', 'c')]))], "let_chain");
@@ -1390,6 +1509,7 @@ pub fn p_family(name: &str) -> Option<PFamily> {
         "ctx_shapes" => from_vec(ctx_family(true)),
         "range_overlap" => from_vec(range_overlap_family()),
         "fold" => from_vec(fold_family()),
+        "high" => from_vec(high_family()),
         "diamond" => from_vec(diamond_family()),
         "delimited" => from_vec(delimited_family()),
         // `#` and `|` between classes with several pieces, used inside rules
